@@ -7,12 +7,15 @@ verus! {
 pub enum FV { NaN, PosInf, NegInf, Fin(real) }
 pub uninterp spec fn fv(f: f64) -> FV;
 
+// int -> real conversion is always written ir(i) so that the (proved) fact floor(ir(i)) == i can be triggered
+pub open spec fn ir(i: int) -> real { i as real }
+pub broadcast proof fn lemma_ir_floor(i: int) ensures (#[trigger] ir(i)).floor() == i {}
 pub open spec fn real_trunc(x: real) -> int { if x >= 0real { x.floor() } else { -((-x).floor()) } }
 pub open spec fn real_ceil(x: real) -> int { -((-x).floor()) }
 // f64::round: half away from zero
 pub open spec fn real_round(x: real) -> int { if x >= 0real { (x + 0.5real).floor() } else { -((-x + 0.5real).floor()) } }
 pub open spec fn fv_map(v: FV, f: spec_fn(real) -> int) -> FV {
-    match v { FV::Fin(x) => FV::Fin(f(x) as real), other => other }
+    match v { FV::Fin(x) => FV::Fin(ir(f(x))), other => other }
 }
 
 // ---- constants: Verus has no support for the associated constants f64::INFINITY / NEG_INFINITY / NAN;
@@ -77,6 +80,14 @@ pub broadcast axiom fn f64_ne_val(a: f64, b: f64, o: bool) requires #[trigger] v
 pub broadcast axiom fn f64_lt_val(a: f64, b: f64, o: bool) requires #[trigger] vstd::std_specs::cmp::lt_ensures::<f64>(a, b, o) ensures o == fv_lt(fv(a), fv(b));
 pub broadcast axiom fn f64_gt_val(a: f64, b: f64, o: bool) requires #[trigger] vstd::std_specs::cmp::gt_ensures::<f64>(a, b, o) ensures o == fv_lt(fv(b), fv(a));
 pub broadcast axiom fn f64_partial_cmp_val(a: f64, b: f64, o: Option<Ordering>) requires #[trigger] vstd::std_specs::cmp::partial_cmp_ensures::<f64>(a, b, o) ensures o == fv_partial_cmp(fv(a), fv(b));
+
+// the same facts stated on vstd's PartialEqSpec / PartialOrdSpec for f64 (vstd leaves them open); comparisons through
+// references (`&f64 == &f64`) and inside tuples are specified by vstd in terms of these
+pub broadcast axiom fn f64_obeys_eq() ensures #[trigger] <f64 as vstd::std_specs::cmp::PartialEqSpec<f64>>::obeys_eq_spec();
+pub broadcast axiom fn f64_eq_spec(a: f64, b: f64) ensures #[trigger] <f64 as vstd::std_specs::cmp::PartialEqSpec<f64>>::eq_spec(&a, &b) == fv_eq(fv(a), fv(b));
+pub broadcast axiom fn f64_obeys_partial_cmp() ensures #[trigger] <f64 as vstd::std_specs::cmp::PartialOrdSpec<f64>>::obeys_partial_cmp_spec();
+pub broadcast axiom fn f64_partial_cmp_spec(a: f64, b: f64) ensures #[trigger] <f64 as vstd::std_specs::cmp::PartialOrdSpec<f64>>::partial_cmp_spec(&a, &b) == fv_partial_cmp(fv(a), fv(b));
+pub broadcast group f64_cmp_specs { f64_obeys_eq, f64_eq_spec, f64_obeys_partial_cmp, f64_partial_cmp_spec }
 
 // ---- classification / rounding (std documented behaviour) ----
 pub assume_specification[ f64::is_nan ](x: f64) -> (r: bool) ensures r == (fv(x) is NaN);
